@@ -17,6 +17,12 @@
 // against a harness HTTPS server that reads the request body on a script and
 // writes input to the response, some of it after the child has exited; there
 // the stream whose end is judged is the request body as the server sees it.
+//
+// A third engine (ctx.go) varies how the *exec.Cmd was built (exec.Command,
+// exec.CommandContext with the default / a SIGTERM / no Cancel, with or without
+// a WaitDelay of the caller's own) and cancels the command's context at a
+// scripted point of the child's plan while a scripted amount of output is
+// unread and the consumer stalls for up to several seconds.
 package c14
 
 import (
@@ -56,7 +62,7 @@ func pos(o int) int { return (o*7 + o/251) % 26 }
 // ---- case description -------------------------------------------------------
 
 type op struct {
-	K string // w1 w2 (write N bytes to fd 1/2), c1 c2 (close), E (drain stdin to EOF), I (read exactly N bytes of stdin and log them), R (report done), P (pre-announce report), S (sleep N µs)
+	K string // w1 w2 (write N bytes to fd 1/2), c1 c2 (close), E (drain stdin to EOF), I (read exactly N bytes of stdin and log them), R (report done), P (pre-announce report), S (sleep N µs), Q (progress report: the counters so far, kind partial), G (wait until the file go exists in the case directory), T (ignore SIGTERM from here on)
 	N int
 	P int // pause after the op, µs
 }
@@ -563,6 +569,9 @@ for (my $i = 0; $i < @plan; $i += 3) {
 	elsif ($k eq 'R') { report('done'); }
 	elsif ($k eq 'P') { put('report', "out=%d err=%d pre\n"); }
 	elsif ($k eq 'S') { select(undef, undef, undef, $n / 1e6); }
+	elsif ($k eq 'Q') { report('partial'); }
+	elsif ($k eq 'G') { until (-e "$dir/go") { select(undef, undef, undef, 0.001); } }
+	elsif ($k eq 'T') { $SIG{TERM} = 'IGNORE'; }
 	select(undef, undef, undef, $p / 1e6) if $p;
 }
 %s;
@@ -1189,7 +1198,7 @@ func witness(s *spec, res *result, v verdict, dir string) map[string]any {
 }
 
 func Run(r *mon.Run) {
-	r.Rule = "one case = one generated child program (perl syswrite plan, or sh+dd) run through simpleshell.NewCmdShell with one scripted consumer of Output() and one stdin arrangement; stdout carries a–z and stderr A–Z, byte at offset o = base+(o*7+o/251)%26, so the merged stream is split and each side compared with what the child reports having written; cat-mode cases (every 5th) send PRNG bytes through SetInput and compare the child's stdin log and Output() with them; every 5th pattern case and every 5th cat case ends by a signal to itself (KILL TERM SEGV ABRT HUP USR1 in turn) instead of exit, and Go must then return an error. Engine e2e: the same pattern children run through simpleshell.Go against a harness HTTPS server (HTTP/1.1 and HTTP/2 alternate) whose handler reads the request body on a script (keeps up for a while, then lags, reads nothing from the child's exit until some time after a few lines of late input, then reads the rest), feeds early input the child reads and logs, and ends the response after the request body has ended; the bytes the server read up to the end of the request body, split by alphabet, must be what the child reports having written, the body must end cleanly, and simpleshell.Go must return an error for a non-zero exit or a death by signal. distinct_nontrivial = distinct (mode, flavor, sizes, write sizes, interleaving, exit status/mode, stdin arrangement, consumer schedule) signatures among cases that move at least one byte"
+	r.Rule = "one case = one generated child program (perl syswrite plan, or sh+dd) run through simpleshell.NewCmdShell with one scripted consumer of Output() and one stdin arrangement; stdout carries a–z and stderr A–Z, byte at offset o = base+(o*7+o/251)%26, so the merged stream is split and each side compared with what the child reports having written; cat-mode cases (every 5th) send PRNG bytes through SetInput and compare the child's stdin log and Output() with them; every 5th pattern case and every 5th cat case ends by a signal to itself (KILL TERM SEGV ABRT HUP USR1 in turn) instead of exit, and Go must then return an error. Engine e2e: the same pattern children run through simpleshell.Go against a harness HTTPS server (HTTP/1.1 and HTTP/2 alternate) whose handler reads the request body on a script (keeps up for a while, then lags, reads nothing from the child's exit until some time after a few lines of late input, then reads the rest), feeds early input the child reads and logs, and ends the response after the request body has ended; the bytes the server read up to the end of the request body, split by alphabet, must be what the child reports having written, the body must end cleanly, and simpleshell.Go must return an error for a non-zero exit or a death by signal. Engine ctx (how the command was built and how it ends): the *exec.Cmd given to NewCmdShell is made by exec.Command, by exec.CommandContext with the default Cancel (Kill), with a Cancel that sends SIGTERM (the child's handler reports and exits 98, or the child ignores it), or with Cancel set back to nil, each with or without a WaitDelay of the caller's own (200 ms to 3 s); stall after the cancellation (0, 0.3, 1.2, 1.6, 2.5, 3.5 s; thorough also 5.5 s), build and cancellation point go by case index, so every (build, stall) pair occurs at every seed. The consumer first reads an exact number of bytes (0 to 400 000), only then the child goes on (gate file) and writes 0 to 98 304 more bytes per descriptor, reporting after every write; the command's context is cancelled when the child has been seen at the scripted point - blocked in a further 256 KiB write or pausing before its last write (mid-write), lingering after its last write, already exited, or never - and the consumer reads nothing until the stall is over, then drains on a fast, chunked or slow schedule. The input is an io.Pipe left open (empty or with unread data), an *os.File pipe left open, nil, or a reader at EOF. Whatever ended the child (SIGKILL by the context, its SIGTERM handler, the Kill after the caller's WaitDelay, or its own exit), every byte of its last report must have arrived when Output() reports io.EOF; an Output() that ends with an error after a cancellation (os/exec closing the pipes when the caller's WaitDelay expires) is counted, not judged; without a cancellation it must end with io.EOF; an unsuccessful wait status with a nil return of Go is a violation. distinct_nontrivial = distinct (mode, flavor, sizes, write sizes, interleaving, exit status/mode, stdin arrangement, consumer schedule) signatures among cases that move at least one byte"
 	r.Assumptions = []string{
 		"the child's own account (report file written through rename, exit status 97/98 on a failed or interrupted write) is the ground truth of what it wrote",
 		"child exit is observed through /proc/<pid>/stat (zombie or gone)",
@@ -1198,12 +1207,16 @@ func Run(r *mon.Run) {
 		"bound per case 30 s; a case whose Output() has not ended by then is re-run alone with 60 s (at most 2 per run)",
 		"a child that ends by a signal sends it to itself (perl kill / sh kill -s) after its last write and its report; the wait status seen by exec.Cmd confirms the death by that signal before the case counts",
 		"e2e: the harness HTTPS server (net/http, fresh self-signed P-256 certificate, HTTP/1.1 or HTTP/2 by case) enables full duplex and flushes the header at once like the /io handler; it ends the response only after the request body has ended, so that an unread rest is never the server's doing; the process outlives every simpleshell.Go call (library use)",
+		"ctx: the child's report file is rewritten (write + rename) after every write of the part the consumer has not read, so the last report is a lower bound of what it wrote even when SIGKILL ends it, and exact when its SIGTERM handler or its own last step wrote it",
+		"ctx: the scripted point is observed through the report file and /proc (10 s bound; a case whose child was not seen there is cancelled anyway and counts as ctx_point_not_reached); the stall is a sleep of the harness and only decides what is exercised, never the verdict; the unread amounts fit in a 64 KiB pipe plus the relay's first read, so the child is not blocked before the point",
+		"ctx: an input left open is closed once Output() has ended so that Go can return; Output() has 30 s to end (then the same re-run rule)",
 		"e2e: child exit is observed through /proc before the late input is sent; what the server read is compared only once the request body has reported its end (30 s bound, then the same re-run rule)",
 	}
 	// SEGV and ABRT deaths must not leave core files behind
 	syscall.Setrlimit(syscall.RLIMIT_CORE, &syscall.Rlimit{Cur: 0, Max: 0})
 	runCaseEngine(r)
 	runE2EEngine(r)
+	runCtxEngine(r)
 	// no process of ours may be left behind
 	if !r.Replaying() {
 		r.Count("orphans_killed", int64(reapOrphans(r.Work)))
